@@ -74,6 +74,7 @@ MEMBERS = ['C07_plane_intersection_on_both',
            'C07_caps_parallel_to_axis',
            'C07_flipped_sense_lattice_error',
            'C07_flipped_set_lattice_error',
+           'C07_base_vectors_outcomes',
            'C07_hex_lattice_developed',
            'C07_develop_lattice_hex_is_tied',
            'C07_rhp_is_C03_rhp_linked',
